@@ -9,3 +9,4 @@ import WowVerif.Props.C02
 #print axioms Wv.C02.tail_differs_witness
 #print axioms Wv.C02.writeArchive_conv_irrelevant
 #print axioms Wv.C02.interop_unencrypted
+#print axioms Wv.C02.block_extents_inside
